@@ -328,9 +328,16 @@ vf::CaseResult run_case(const std::string &id, const Program &prog, Stats &st) {
   res.nontrivial = S.m.n_logical_cells() >= 3 && (S.reused_faces > 0 || S.perm_accepts > 0);
   if (!S.fail.empty()) {
     if (S.fail.rfind("PREREQ", 0) == 0) st.count("discarded_prereq_C01");
-    else { res.ok = false; res.msg = oneline(S.fail); }
+    else if (id != "C11") { res.ok = false; res.msg = oneline(S.fail); }
+    else {
+      // run under C11 (construction validates, hexahedral kernel): only the acceptance / rejection verdicts count
+      static const char *mine[] = {"rejected", "accepted", "changed the mesh", "cells afterwards are not the former cells plus"};
+      bool own = false;
+      for (auto k : mine) if (S.fail.find(k) != std::string::npos) own = true;
+      if (own) { res.ok = false; res.msg = oneline(S.fail); }
+      else st.count("discarded_owner_C16");
+    }
   }
-  (void)id;
   return res;
 }
 
